@@ -42,23 +42,34 @@ impl Token<'_> {
 struct Parser<'a> {
     tokenizer: Tokenizer<'a>,
     current_token: Token<'a>,
+
+    /// Whether the tokenizer ran out of input.
+    /// (current_token is Token::Illegal then, but an illegal token in the middle of the input is not the end of it)
+    at_end: bool,
 }
 
 impl<'a> Parser<'a> {
     /// Creates a new Parser from the given input string
     fn new(input: &str) -> Parser {
-        let mut tokenizer = Tokenizer::new(input);
-        let current_token = tokenizer.next().unwrap_or(Token::Illegal);
-        Parser {
-            tokenizer,
-            current_token,
-        }
+        let mut parser = Parser {
+            tokenizer: Tokenizer::new(input),
+            current_token: Token::Illegal,
+            at_end: false,
+        };
+        parser.advance();
+        parser
     }
 
     /// Advances the parser (reads the next token)
     #[inline(always)]
     fn advance(&mut self) {
-        self.current_token = self.tokenizer.next().unwrap_or(Token::Illegal);
+        match self.tokenizer.next() {
+            Some(token) => self.current_token = token,
+            None => {
+                self.current_token = Token::Illegal;
+                self.at_end = true;
+            }
+        }
     }
 
     /// Assert current token is of the given type and skips it
@@ -477,7 +488,7 @@ impl<'a> Parser<'a> {
         let mut block = BlockStmt::with_capacity(8);
         self.skip(Token::OpenBrace)?;
 
-        while self.current_token != Token::Illegal && self.current_token != Token::CloseBrace {
+        while !self.at_end && self.current_token != Token::CloseBrace {
             block.push(self.parse_statement()?);
         }
 
@@ -491,7 +502,7 @@ pub fn parse(program: &str) -> Result<BlockStmt, ParseError> {
     let mut parser = Parser::new(program);
     let mut block = BlockStmt::new();
 
-    while parser.current_token != Token::Illegal {
+    while !parser.at_end {
         block.push(parser.parse_statement()?);
     }
 
